@@ -83,7 +83,7 @@ def mk_det(kind, prm, cost=None):
 def datasets(seed):
     g = np.random.default_rng(seed)
     out = []
-    for n, p in [(24, 1), (31, 1), (24, 1), (28, 2), (36, 3), (24, 2)]:
+    for n, p in [(24, 1), (31, 1), (24, 1), (28, 2), (36, 3), (24, 1)]:  # 0, 2, 5 share shape and index
         X = g.normal(size=(n, p))
         t = int(g.integers(5, n - 5))
         X[t:] += g.choice([3.0, -4.0, 5.0])
@@ -113,6 +113,16 @@ def gen_history(rng, length):
         else:
             op = rng.choice(["sfit", "sfit", "evaluate", "evaluate", "mutate-refit", "sclone"])
             ops.append({"o": o, "op": op, "X": rng.randrange(6), "as_array": rng.random() < 0.5})
+    # every detector ends with calls on DIFFERENT data sets that share shape and index (0, 2, 5): a result cached
+    # under the index / shape of the previous call would be returned for the wrong data
+    for o, ob in enumerate(objs):
+        if ob["type"] == "det" and rng.random() < 0.7:
+            same = [0, 2, 5]
+            rng.shuffle(same)
+            tail = [("fit", same[0]), (rng.choice(["predict", "transform_scores", "transform"]), same[1]),
+                    (rng.choice(["transform_scores", "predict", "transform"]), same[2]), (rng.choice(["transform_scores", "transform"]), same[0])]
+            for op, xi in tail:
+                ops.append({"o": o, "op": op, "X": xi, "arg": 1.0, "cut": 10, "ov": 0})
     return {"objs": objs, "ops": ops, "seed": rng.randint(0, 10**6)}
 
 
